@@ -218,7 +218,7 @@ package xmpp
 //@ event MapGet_IQResultRoutes(o Ref, k Str, found Bool, v *xmpp.IQResultRoute)
 //@ event MapSet_IQResultRoutes(o Ref, k Str, v *xmpp.IQResultRoute)
 //@ event MapDel_IQResultRoutes(o Ref, k Str, had Bool, v *xmpp.IQResultRoute)
-//@ pred pendingWf(r) := r.IQResultRoutes != nil ==> alls(k, mapHas(r.IQResultRoutes, k) ==> mapGet(r.IQResultRoutes, k) != nil && mapGet(r.IQResultRoutes, k).result != nil && chancap(mapGet(r.IQResultRoutes, k).result) >= 1)
+//@ pred pendingWf(r) := r.IQResultRoutes != nil ==> alls(k, mapHas(r.IQResultRoutes, k) ==> mapGet(r.IQResultRoutes, k) != nil && mapGet(r.IQResultRoutes, k).result != nil && chancap(mapGet(r.IQResultRoutes, k).result) >= 1 && !chanClosed(mapGet(r.IQResultRoutes, k).result))
 //@ guarded xmpp.Router.IQResultRoutes by IQResultRouteLock [C07.table] invariant pendingWf($o)
 //@ pred tableQuiet() := count(MapSet_IQResultRoutes) == old(count(MapSet_IQResultRoutes)) && count(MapDel_IQResultRoutes) == old(count(MapDel_IQResultRoutes))
 //@ pred lockFree(r) := !locked(addr(r.IQResultRouteLock)) && rlocked(addr(r.IQResultRouteLock)) == 0
@@ -338,6 +338,12 @@ package xmpp
 //@ func (stanza.Packet).Name(p) (name)
 //@ func (xmpp.Transport).ReceivedStreamClose(t)
 //
+//@ func (*xmpp.Component).Connect(c) (err)
+//@   requires c != nil
+//@   ensures [C16.connect.established] err == nil ==> c.CurrentState.state == StateSessionEstablished && count(Spawn_recv) == old(count(Spawn_recv)) + 1 && last(Spawn_recv) == c && count(PacketRead) == old(count(PacketRead)) + 1 && typeof(last(PacketRead)) == stanza.Handshake
+//@   ensures [C16.connect.failure] err != nil ==> typeof(err) == ConnError && count(Spawn_recv) == old(count(Spawn_recv)) && c.CurrentState.state != StateSessionEstablished
+//@   assigns c.TransportConfiguration.Domain, c.transport, c.CurrentState.state
+//@   emits EventHandler, Connected, Write, PacketRead, Spawn_recv, Spawn, TokenRead
 //@ func (*xmpp.Component).Resume(c) (err)
 //@   requires c != nil
 //@   ensures [C16.established] err == nil ==> c.CurrentState.state == StateSessionEstablished && count(Spawn_recv) == old(count(Spawn_recv)) + 1 && last(Spawn_recv) == c
@@ -458,12 +464,14 @@ package xmpp
 //
 //@ func (*xmpp.Client).recv(c, keepaliveQuit)
 //@   requires recvOK(c)
+//@   requires keepaliveQuit != nil && !chanClosed(keepaliveQuit)
 //@   ensures [C12.quit]  count(Close) >= old(count(Close)) + 1 && last(Close) == keepaliveQuit
 //@   ensures [C05.once]  newSpawns() == newReads() || (newSpawns() + 1 == newReads() && !isStanza(last(PacketRead)))
 //@   ensures [C05.same]  forall(j, 0, newSpawns(), arg(Spawn_route, old(count(Spawn_route)) + j, 2) == arg(PacketRead, old(count(PacketRead)) + j) && arg(Spawn_route, old(count(Spawn_route)) + j, 1) == iface(c))
 //@   ensures [C05.acks]  count(AnswerSent) - old(count(AnswerSent)) == count(AckReqRead) - old(count(AckReqRead))
 //@   ensures [C09.count] c.Session.SMState.Inbound - old(c.Session.SMState.Inbound) == count(StanzaRead) - old(count(StanzaRead))
 //@   ensures [C05.spawns.only,C12.spawns.only] count(Spawn) - old(count(Spawn)) == newSpawns()
+//@   ensures [C13.close.reported] (newSpawns() + 1 == newReads() && typeof(last(PacketRead)) == stanza.StreamClosePacket) ==> c.CurrentState.state == StateDisconnected && count(ErrorHandler) - old(count(ErrorHandler)) == count(StreamErrRead) - old(count(StreamErrRead)) && (c.Handler != nil ==> count(EventHandler) - old(count(EventHandler)) == count(StreamErrRead) - old(count(StreamErrRead)) + 1 && last(EventHandler).State.state == StateDisconnected && last(EventHandler).SMState == c.Session.SMState)
 //@   ensures [C12.once]  !(newSpawns() + 1 == newReads() && typeof(last(PacketRead)) == stanza.StreamClosePacket) ==> count(ErrorHandler) - old(count(ErrorHandler)) == count(StreamErrRead) - old(count(StreamErrRead)) + 1 && c.CurrentState.state == StateDisconnected
 //@   ensures [C12.event] (!(newSpawns() + 1 == newReads() && typeof(last(PacketRead)) == stanza.StreamClosePacket) && c.Handler != nil) ==> count(EventHandler) - old(count(EventHandler)) == count(StreamErrRead) - old(count(StreamErrRead)) + 1 && last(EventHandler).State.state == StateDisconnected && last(EventHandler).SMState == c.Session.SMState && atlast(ErrorHandler) < atlast(EventHandler)
 //@   assigns c.Session.SMState.Inbound, c.Session.SMState.UnAckQueue.Uslice, c.CurrentState.state
@@ -593,6 +601,7 @@ package xmpp
 //@ func (*xmpp.Component).recv(c)
 //@   requires compOK(c)
 //@   ensures [C05.comp.once]  count(Routed) - old(count(Routed)) == newReads() + (count(StreamErrRead) - old(count(StreamErrRead))) || (count(Routed) - old(count(Routed)) + 1 == newReads() + (count(StreamErrRead) - old(count(StreamErrRead))) && typeof(last(PacketRead)) == stanza.StreamClosePacket)
+//@   ensures [C13.comp.close.reported] (newReads() > 0 && typeof(last(PacketRead)) == stanza.StreamClosePacket && count(Routed) - old(count(Routed)) + 1 == newReads() + (count(StreamErrRead) - old(count(StreamErrRead)))) ==> c.CurrentState.state == StateDisconnected
 //@   ensures [C05.comp.error] !(newReads() > 0 && typeof(last(PacketRead)) == stanza.StreamClosePacket && count(Routed) - old(count(Routed)) + 1 == newReads() + (count(StreamErrRead) - old(count(StreamErrRead)))) ==> count(ErrorHandler) - old(count(ErrorHandler)) == count(StreamErrRead) - old(count(StreamErrRead)) + 1 && c.CurrentState.state == StateDisconnected
 //@   assigns c.CurrentState.state
 //@   elems c.router.IQResultRoutes
@@ -637,6 +646,12 @@ package xmpp
 //
 // Closing the transport closes the socket - whatever becomes of the closing stream tag: a blocked read of the receive
 // loop ends only then (the keepalive relies on it when a ping fails).
+// The server's closing tag is handed to a Close() that waits for it, if there is one; the receive loop is never held
+// up here (when the server closes the stream first nobody is waiting).
+//@ func (*xmpp.XMPPTransport).ReceivedStreamClose(t)
+//@   requires t != nil
+//@   ensures [C13.close.noblock] count(ChanSend) == old(count(ChanSend)) && count(ChanRecv) == old(count(ChanRecv))
+//@   emits Select, Selected
 //@ func (*xmpp.XMPPTransport).Close(t) (err)
 //@   requires t != nil
 //@   ensures [C12.close.socket] old(t.conn) != nil ==> count(ConnClosed) == old(count(ConnClosed)) + 1 && last(ConnClosed, 0) == old(t.conn)
@@ -798,14 +813,52 @@ package xmpp
 //@ event WsFrame(c Ref, ok Bool)
 //@ func field:xmpp.WebsocketTransport.closeFunc()
 //@   emit CtxCancelled
-//@ func (xmpp.WebsocketTransport).startReader$1(t)
+// A websocket message may arrive in several frames: each message is read to io.EOF before the next one is asked for
+// (the library refuses a new reader otherwise, and the reader goroutine would end silently), and every chunk read
+// is queued.
+//@ pred msgDone() := count(WsMessage) == old(count(WsMessage)) || (count(ReaderRead) > old(count(ReaderRead)) && last(ReaderRead, 0) == last(WsMessage, 1) && last(ReaderRead, 2) && atlast(WsMessage) < atlast(ReaderRead))
+// The websocket transport reports the id of the <open/> element it read, like the TCP transport does for the stream header.
+//@ func (xmpp.WebsocketTransport).StartStream(t) (id, err)
+//@   requires t.decoder != nil && t.wsConn != nil
+//@   ensures [C16.ws.startstream.id] err == nil ==> headerId(id)
+//@   emits Write, WsWrite, TokenRead, CtxCancelled
+//@   assigns *
+//
+//@ func (*xmpp.WebsocketTransport).Connect(t) (id, err)
+//@   requires t != nil
+//@   emit Connected(iface(t), id) when err == nil
+//@   ensures [C16.ws.connect.id] err == nil ==> headerId(id)
+//@   emits Write, WsWrite, TokenRead, CtxCancelled, Spawn, Spawn_startReader$1
+//@   assigns *
+//
+// Closing the websocket transport may happen more than once (the keepalive closes a dead connection, a stream error
+// makes both the receive loop and the StreamManager's handler disconnect) and concurrently with the reader goroutine:
+// it closes no channel.
+//@ func (*xmpp.WebsocketTransport).cleanup(t, code) (err)
+//@   requires t != nil
+//@   ensures [C12.ws.close.nochan] count(Close) == old(count(Close))
+//@   assigns t.queue, t.wsConn, t.closeFunc, t.closeCtx
+//@   emits CtxCancelled
+//@ func (xmpp.WebsocketTransport).Close(t) (err)
 //@   requires t.wsConn != nil
+//@   ensures [C12.ws.close.nochan] count(Close) == old(count(Close))
+//@   emits CtxCancelled, WsWrite, Write
+//
+//@ func (xmpp.WebsocketTransport).startReader$1(t)
+//@   requires t.wsConn != nil && t.closeCtx != nil
 //@   ensures [C05.ws.reader.nocancel] count(CtxCancelled) == old(count(CtxCancelled))
-//@   emits WsFrame, ChanSend, ChanSend_Slice
+//@   at call Reader assert [C05.ws.reader.whole] msgDone()
+//@   emits WsFrame, WsMessage, ReaderRead, ChanSend, ChanSend_Slice
 //@   elems *
 //@   loop 1:
 //@     invariant [C05.ws.reader.nocancel] count(CtxCancelled) == old(count(CtxCancelled))
-//@     invariant t.wsConn != nil
+//@     invariant [C05.ws.reader.whole] msgDone()
+//@     invariant t.wsConn != nil && t.closeCtx != nil
+//@   loop 2:
+//@     invariant [C05.ws.reader.nocancel] count(CtxCancelled) == old(count(CtxCancelled))
+//@     invariant [C05.ws.reader.whole] count(WsMessage) > old(count(WsMessage)) && last(WsMessage, 2) && last(WsMessage, 1) == reader && reader != nil
+//@     invariant [C05.ws.reader.whole] forall(j, old(count(ReaderRead)), count(ReaderRead), at(ReaderRead, j) < atlast(WsMessage) || arg(ReaderRead, j, 0) == reader)
+//@     invariant t.wsConn != nil && t.closeCtx != nil
 
 // ---------------------------------------------------------------------------
 // C08: each send is one whole Write (the remaining senders and the traffic logger)
@@ -993,6 +1046,17 @@ package xmpp
 //@   ensures [C13.connect.fail]  err != nil ==> count(PostConnectCalled) == old(count(PostConnectCalled))
 //@   assigns *
 //@   emits PostConnectCalled, Spawn_recv, Spawn_keepalive, Write, EventHandler
+//
+// Run: the reconnect handler is installed before the first connection is attempted; one Add(1) is balanced by one
+// Done when the first connection fails (Run returns the error) and otherwise waited for (Stop's single Done ends it).
+//@ func (*xmpp.StreamManager).Run(sm) (err)
+//@   requires sm != nil && (typeof(sm.client) == *Client ==> connectOK(sm.client.(*Client)))
+//@   ensures [C13.run.noclient] old(sm.client) == nil ==> err != nil && count(HandlerSet) == old(count(HandlerSet)) && count(WgAdd) == old(count(WgAdd)) && count(PostConnectCalled) == old(count(PostConnectCalled))
+//@   ensures [C13.run.handler]  old(sm.client) != nil ==> count(HandlerSet) == old(count(HandlerSet)) + 1 && last(HandlerSet, 0) == old(sm.client) && last(HandlerSet, 1) != nil && count(WgAdd) == old(count(WgAdd)) + 1 && last(WgAdd, 1) == 1 && atlast(HandlerSet) < atlast(WgAdd)
+//@   ensures [C13.run.failed]   (old(sm.client) != nil && err != nil) ==> count(WgDone) == old(count(WgDone)) + 1 && count(WgWait) == old(count(WgWait)) && count(PostConnectCalled) == old(count(PostConnectCalled))
+//@   ensures [C13.run.waits]    err == nil ==> count(WgDone) == old(count(WgDone)) && count(WgWait) == old(count(WgWait)) + 1 && atlast(WgAdd) < atlast(WgWait)
+//@   assigns *
+//@   emits HandlerSet, WgAdd, WgDone, WgWait, PostConnectCalled, Spawn_recv, Spawn_keepalive, Write, EventHandler
 //
 //@ func (*xmpp.StreamManager).Stop(sm)
 //@   requires sm != nil && sm.client != nil
